@@ -153,6 +153,55 @@ func c15(c *Ctx) {
 		c15acyclic(c, up)
 	}
 
+	// ---- every check on every path
+	r.Rule("PATH: in validateQuotaTopology each of checkIsParentChange, checkTreeID, checkParentQuotaInfo, checkSubAndParentGroupQuotaKey and checkMinQuotaValidate is evaluated on every path to a nil return, except the documented root shortcuts (name == root; parent == root and not a parent)")
+	if vfn := c.Fn(quotaWebhookPkg, "quotaTopology", "validateQuotaTopology"); vfn != nil {
+		for _, name := range []string{"checkIsParentChange", "checkTreeID", "checkParentQuotaInfo", "checkSubAndParentGroupQuotaKey", "checkMinQuotaValidate"} {
+			var call ssa.CallInstruction
+			for _, cl := range an.Calls(vfn, false) {
+				if an.ShortCallee(cl.Common()) == name {
+					call = cl
+				}
+			}
+			key := fkey(vfn) + "/always-checked/" + name
+			if call == nil {
+				r.Fail("PATH", key, c.Pos(vfn.Pos()), name+" is no longer called by validateQuotaTopology")
+				continue
+			}
+			reach := an.Explore(vfn, nil, nil, func(in ssa.Instruction) bool { return in == ssa.Instruction(call) })
+			var bad []string
+			for _, ret := range reach.Returns() {
+				if reach.EvalAt(ret.Results[0], ret) == an.NonNil {
+					continue
+				}
+				if call2, _ := an.ResultOfCall(ret.Results[0]); call2 != nil {
+					continue // returns another check's error
+				}
+				okRoot := false
+				for _, g := range an.Guards(ret) {
+					p := an.Path(g.Cond)
+					if (strings.Contains(p, "RootQuotaName") || strings.Contains(p, "koordinator-root-quota")) && g.Truth {
+						okRoot = true
+					}
+				}
+				if !okRoot {
+					bad = append(bad, c.InstrPos(ret))
+				}
+			}
+			r.Check(len(bad) == 0, "PATH", key, c.InstrPos(call), "evaluated on every non-root path", "a nil return at "+strings.Join(bad, ",")+" is reachable without "+name+" (the check was made conditional): e.g. a re-parent with unchanged min would skip the min-sum check against the new parent")
+		}
+	}
+
+	// ---- one critical section per request
+	r.Rule("ATOMIC: in ValidAddQuota/ValidUpdateQuota/ValidDeleteQuota every read and write of the three maps (directly or through a callee) happens with quotaTopology.lock held for writing, and the lock is not released between the first check and the last write")
+	touch := c.NewTouch(map[string]map[string]bool{load.Module + "/" + quotaWebhookPkg + ".quotaTopology": topoMaps})
+	for _, n := range []string{"ValidAddQuota", "ValidUpdateQuota", "ValidDeleteQuota"} {
+		if fn := entries[n]; fn != nil {
+			atomicSection(c, "ATOMIC", fn, touch, map[string]map[string]bool{load.Module + "/" + quotaWebhookPkg + ".quotaTopology": topoMaps},
+				"the checks and the update of a request are not inside one critical section: a concurrent request can change the topology between the checks and the write (e.g. a child is created under a quota while its deletion is being validated)")
+		}
+	}
+
 	// ---- LOCK
 	r.Rule("LOCK: quotaInfoMap, quotaHierarchyInfo and namespaceToQuotaMap of quotaTopology are read under lock (R/W) and written under the write lock")
 	c.RunLock("LOCK", LockCfg{Pkg: quotaWebhookPkg, Type: "quotaTopology", Mutex: "lock",
